@@ -46,34 +46,36 @@ bits! {
 	c01q_bits_lsb_o2_n4: Lsb0, 2, 4, false; c01t_bits_lsb_o1_n5: Lsb0, 1, 5, false;
 }
 
-/// C03: BitVec<u8,Lsb0>::decode on ALL strings <= 3 bytes (symbolic count prefix: bulk path),
-/// incl. the 2^29-1 cap; padding bits in the last word are truncated away.
+/// C03: BitVec<u8,Lsb0>::decode with a concrete bit count C (one-byte prefix) over ALL payloads of symbolic length <= L:
+/// accepted iff ceil(C/8) bytes are present; the live bits are the input bits (read through the raw storage words: per-bit
+/// indexing drags bitvec's pointer arithmetic into the query), consumption is exact; padding bits are not inspected.
 #[cfg(any(feature = "c03", feature = "c02"))]
-#[kani::proof]
-#[kani::unwind(19)]
-pub fn c03q_bitvec_u8_any_bytes() {
-	let bytes: [u8; 3] = kani::any();
+fn bitvec_dec<const C: usize, const L: usize>() {
+	let bytes: [u8; L] = kani::any();
 	let len: usize = kani::any();
-	kani::assume(len <= 3);
-	let mut s = &bytes[..len];
+	kani::assume(len <= L);
+	let mut s = Pre::count(C, &bytes[..len]);
 	let r = BitVec::<u8, Lsb0>::decode(&mut s);
-	let m = compact_decode(&bytes[..len], 32);
-	match (&r, m) {
-		(Ok(v), Some((n, k))) => {
-			let n = n as usize;
-			let words = (n + 7) / 8;
-			assert!(n <= 0x1fff_ffff && len - k >= words, "accepted a bit count beyond the cap or beyond the data");
-			assert!(v.len() == n && len - s.len() == k + words, "bit length / consumption differs from the reference");
-			let mut i = 0;
-			while i < n { assert!(v[i] == ((bytes[k + i / 8] >> (i % 8)) & 1 == 1), "decoded bit differs from the input"); i += 1; }
-		},
-		(Err(_), Some((n, k))) => assert!(n as usize > 0x1fff_ffff || len - k < (n as usize + 7) / 8, "rejected a well-formed bit sequence"),
-		(Ok(_), None) => assert!(false, "accepted a malformed bit count"),
-		(Err(_), None) => {},
+	let words = (C + 7) / 8;
+	assert!(r.is_ok() == (len >= words), "bit sequence accepted iff its storage words are present");
+	if let Ok(v) = &r {
+		assert!(v.len() == C && len - s.rest.len() == words, "bit length / consumption differs from the reference");
+		let raw = v.as_raw_slice();
+		assert!(raw.len() == words);
+		let mut j = 0;
+		while j < words {
+			let live = if (j + 1) * 8 <= C { 0xffu8 } else { (1u8 << (C % 8)) - 1 };
+			assert!(raw[j] & live == bytes[j] & live, "decoded bits differ from the input");
+			j += 1;
+		}
 	}
 	kani::cover!(r.is_ok(), "reach: accepted");
 	core::mem::forget(r);
 }
+#[cfg(any(feature = "c03", feature = "c02"))] #[kani::proof] #[kani::unwind(6)] pub fn c03q_bitvec_u8_c3() { bitvec_dec::<3, 2>() }
+#[cfg(any(feature = "c03", feature = "c02"))] #[kani::proof] #[kani::unwind(6)] pub fn c03q_bitvec_u8_c9() { bitvec_dec::<9, 3>() }
+#[cfg(any(feature = "c03", feature = "c02"))] #[kani::proof] #[kani::unwind(6)] pub fn c03t_bitvec_u8_c0() { bitvec_dec::<0, 1>() }
+#[cfg(any(feature = "c03", feature = "c02"))] #[kani::proof] #[kani::unwind(6)] pub fn c03t_bitvec_u8_c8() { bitvec_dec::<8, 2>() }
 #[cfg(any(feature = "c03", feature = "c02"))]
 #[kani::proof]
 #[kani::unwind(8)]
